@@ -22,6 +22,9 @@ def when_ready(server):
     _dump(server.cfg, "master")
 _old_pwi = post_worker_init
 def post_worker_init(worker):
+    # what the server actually runs as, next to what the settings say
+    with open(_os.path.join(%(dir)r, "eff_worker.json"), "w") as f:
+        _json.dump({"class": type(worker).__module__ + "." + type(worker).__name__}, f)
     _dump(worker.cfg, "worker")
     _old_pwi(worker)
 '''
@@ -36,10 +39,13 @@ RUNS = [
      {"keepalive": "5", "threads": "4", "worker_connections": "4"}),
     ("gthread", ["--threads", "3"], "--worker-connections 2 --keep-alive 6", ["keepalive = 7", "max_requests = 50"],
      {"keepalive": "6", "threads": "3", "worker_connections": "2", "max_requests": "50"}),
-    ("gevent", ["--worker-connections", "7"], "", ["keepalive = 3", "max_requests_jitter = 4", "limit_request_line = 0"],
-     {"worker_connections": "7", "keepalive": "3", "max_requests_jitter": "4", "limit_request_line": "0"}),
-    ("eventlet", [], "--keep-alive 0 --limit-request-fields 0", ["timeout = 0", "limit_request_field_size = 0"],
-     {"keepalive": "0", "limit_request_fields": "0", "timeout": "0", "limit_request_field_size": "0"}),
+    # (threads given by a less authoritative source than the worker class: it changes the class of a sync worker only --
+    # the documented substitution -- and no other)
+    ("gevent", ["--worker-connections", "7"], "", ["keepalive = 3", "max_requests_jitter = 4", "limit_request_line = 0", "threads = 4"],
+     {"worker_connections": "7", "keepalive": "3", "max_requests_jitter": "4", "limit_request_line": "0", "threads": "4"}),
+    ("eventlet", [], "--keep-alive 0 --limit-request-fields 0 --threads 2", ["timeout = 0", "limit_request_field_size = 0"],
+     {"keepalive": "0", "limit_request_fields": "0", "timeout": "0", "limit_request_field_size": "0", "threads": "2"}),
+    ("sync", [], "--threads 3", ["keepalive = 4"], {"threads": "3", "keepalive": "4"}),
 ]
 
 
@@ -84,6 +90,25 @@ def run_one(i):
                 ok = merged[name] == expect[name]
             ev.append({"e": "setting", "name": name, "merged_ok": bool(ok), "master_same": vals["master"].get(name) == merged[name],
                        "worker_same": vals["worker"].get(name) == merged[name]})
+        # the class the worker runs as is the one the merged worker_class names; documented exception (`threads`): the sync
+        # worker with more than one thread is replaced by the threaded worker
+        try:
+            eff = json.load(open(os.path.join(s.dir, "eff_worker.json")))["class"]
+        except (OSError, ValueError):
+            eff = None
+        named = merged.get("worker_class", "").strip("'")
+        threads = int(merged.get("threads", "1"))
+        want = {"sync": "gunicorn.workers.sync.SyncWorker", "gthread": "gunicorn.workers.gthread.ThreadWorker",
+                "gevent": "gunicorn.workers.ggevent.GeventWorker", "eventlet": "gunicorn.workers.geventlet.EventletWorker"}.get(named)
+        if named == "sync" and threads > 1:
+            want = "gunicorn.workers.gthread.ThreadWorker"
+        if want is not None:
+            ev.append({"e": "setting", "name": "worker_class(effective)", "merged_ok": True, "master_same": True,
+                       "worker_same": eff == want})
+            if eff != want:
+                merged["worker_class(effective)"] = want
+                vals["master"]["worker_class(effective)"] = want
+                vals["worker"]["worker_class(effective)"] = eff
         return {"wk": wk, "ev": ev}, {"wk": wk, "run": i, "cli": cli, "env": envargs, "file": lines,
                                       "diff": {n: [merged[n], vals["master"].get(n), vals["worker"].get(n)] for n in merged
                                                if n not in ("when_ready", "post_worker_init") and
@@ -94,7 +119,7 @@ def run_one(i):
 
 def real_side(ctx):
     from props.reload_real import _parallel
-    plan = list(range(len(RUNS))) if not ctx.quick else [0, 1, 3]
+    plan = list(range(len(RUNS))) if not ctx.quick else [0, 1, 3, 5]
     results = _parallel(plan, lambda a, i: run_one(a), par=5)
     traces = [r[0] for r in results]
     metas = [r[1] for r in results]
